@@ -113,7 +113,7 @@ def gen_expiry_case(rng, variant):
     def ann(na):
         return f"putlocal {k} d={dist(LOCAL, k):x}" if local else f"putprov {k} {p} {na} d={dist(p, k):x}"
     a1 = rng.choice([0, 1, 2])
-    a2 = rng.choice([x for x in [0, 1, 2, 3] if x != a1])
+    a2 = rng.choice([x for x in [0, 1, 2, 3] if x != a1] + [a1])      # (sometimes the very same announcement again)
     others = [q for q in range(1, 9) if q != p]
     if rng.random() < 0.5:
         q = rng.choice(others)
